@@ -388,7 +388,7 @@ def main(tier, seed, replay=None):
     chk.exhaustive = tier == "thorough" and not only
     for v in views.values():
         rmtree(v.sb.root)
-    return chk.finish()
+    return finish_replay(chk) if only else chk.finish()
 
 
 if __name__ == "__main__":
